@@ -9,6 +9,7 @@ mod kx_crypto_ssh {
 
     #[kani::proof]
     #[kani::unwind(90)]
+    #[kani::solver(kissat)]
     fn signature_roundtrip() {
         let bytes: [u8; 64] = kani::any();
         let sig = crypto::Signature::from(bytes);
